@@ -352,16 +352,103 @@ def writer_stream(rng, n, max_huge=2, p64k=0.008):
     return ops
 
 
+def _wr_observable(line):
+    """a `wr` line without the REPRESENTATION of the buffer: the length of the backing array (len=) and the digest of
+    the whole array with its stale bytes (buf=). What stays is what a caller of the Writer can observe: the reply of the
+    call, w (= len(Bytes())), err, the chunk handed to the connection, the sink."""
+    return re.sub(r"\bbuf=\S+", "buf=*", re.sub(r"\blen=\d+", "len=*", line))
+
+
+def _wr_inv_broken(g):
+    """first line of the implementation on which w > len(buf) (the representation invariant the proofs need)"""
+    for i, x in enumerate(g):
+        mo = re.search(r"\bw=(\d+) len=(\d+)", x)
+        if mo and int(mo.group(1)) > int(mo.group(2)):
+            return i
+    return None
+
+
+def writer_correspond(ctx, h, ops, tag, label):
+    """The bare reply writer against Model/RespWriter.lean, whole state after every call.
+
+    Two levels. (1) Observable behaviour (replies, w, err, every chunk handed to the connection, the sink) must agree
+    verbatim: any difference is a VIOLATION, as is a state with w > len(buf). (2) The representation — len(buf) after
+    every call and the stale bytes of the backing array — is compared too. If ONLY the representation differs, the code
+    has a different growth / copy policy than the one the model mirrors (`writeBytes_policy`, `writer_growth*`,
+    `grow_copies_everything` no longer describe it) while it still refines the abstract buffered writer
+    (Spec/RespWriterSpec.lean) on every call of the run, which is what C16 needs. That is reported as a note
+    (`writer-representation-drift`, evidence) and NOT as a violation, unless VERIF_WRITER_REPR=strict: a
+    behaviour-preserving change of the growth policy (DESIGN §8, H1-1) must not raise an alarm."""
+    import os
+    strict = os.environ.get("VERIF_WRITER_REPR", "observable") == "strict"
+    g, m = vlib.run_pair(ctx, ops, h, tag)
+    ctx.cov["evaluations"] += len(ops)
+    ctx.cov["streams"][label] = ctx.cov["streams"].get(label, 0) + len(ops)
+
+    def divergence(gg, mm, n):
+        """index of the first line that counts as a divergence, or None"""
+        if strict:
+            return vlib.first_diff(gg, mm, n)
+        d = vlib.first_diff([_wr_observable(x) for x in gg], [_wr_observable(x) for x in mm], n)
+        b = _wr_inv_broken(gg[:n])
+        cands = [x for x in (d, b) if x is not None]
+        return min(cands) if cands else None
+
+    for i, op in enumerate(ops):
+        if i < len(g) and i < len(m) and g[i] == m[i]:
+            ctx.nontrivial.add(vlib.classify(op, g[i]))
+            toks = op.split()
+            key = "wr " + (toks[1] if len(toks) > 1 else "")
+            ctx.cov["distribution"][key] = ctx.cov["distribution"].get(key, 0) + 1
+    if len(ctx.cov["samples"]) < 6 and len(ops) > 3:
+        k = ctx.rng.randrange(1, len(ops) - 2)
+        ctx.cov["samples"].append({"stream": label, "ops": ops[k:k + 3], "impl": g[k:k + 3], "model": m[k:k + 3]})
+    d = divergence(g, m, len(ops))
+    if d is None:
+        r = vlib.first_diff(g, m, len(ops))
+        if r is not None:
+            drift = ctx.cov.setdefault("writer_representation_drift", {"lines": 0, "first": None})
+            drift["lines"] += sum(1 for i in range(len(ops)) if i < len(g) and i < len(m) and g[i] != m[i])
+            if drift["first"] is None:
+                drift["first"] = {"stream": tag, "line": r, "op": ops[r][:120], "impl": g[r][:200], "model": m[r][:200]}
+                ctx.notes.append(f"writer-representation-drift: {tag} line {r}: the implementation's len(buf) / backing array differs from the model's "
+                                 f"while every observable agrees and w <= len(buf) holds; the policy-specific theorems (writeBytes_policy, writer_growth, "
+                                 f"writer_growth_peak, grow_copies_everything) do not describe this tree, the abstract-writer theorems do "
+                                 f"(VERIF_WRITER_REPR=strict turns this into a violation)")
+        return 0
+    if any("UNSUPPORTED" in x for x in m[:d + 1]):
+        ctx.notes.append(f"{tag}: model left its float fragment at line {d} (generator problem, stream ignored from there)")
+        return 0
+    fail = ops[:d + 1]
+
+    def still(cand):
+        gg, mm = vlib.run_pair(ctx, cand, h, tag + "-shrink")
+        dd = divergence(gg, mm, len(cand))
+        return dd is not None and not any("UNSUPPORTED" in x or "bad-op" in x for x in (mm[:dd + 1] + gg[:dd + 1]))
+    if len(fail) > 1:
+        fail = vlib.shrink_sequence(ctx, h, fail, tag, still)
+    gg, mm = vlib.run_pair(ctx, fail, h, tag + "-final")
+    if divergence(gg, mm, len(fail)) is None:
+        fail, gg, mm = ops[:d + 1], g[:d + 1], m[:d + 1]
+    inv = _wr_inv_broken(gg)
+    vlib.record_violation(ctx, "correspondence", {"ops": fail, "impl": gg, "model": mm, "stream": label, "faketime": False,
+                                                  "explain": ("the reply writer reached a state with w > len(buf)" if inv is not None else
+                                                              "first divergence between redis.Writer and the Lean model of it (Model/RespWriter.lean) on this (shrunk) call sequence"
+                                                              + ("" if strict else ": an OBSERVABLE difference (reply / w / err / bytes handed to the connection)"))})
+    return 1
+
+
+
 def run(ctx, proofs_ok):
     quick = ctx.tier == "quick"
     h = vlib.build_harness(ctx)
     # the reply writer alone against its model: state, backing array and sink after every call
-    vlib.correspond_stream(ctx, h, writer_edges(quick), "wr-edges",
+    writer_correspond(ctx, h, writer_edges(quick), "wr-edges",
                            "bare reply writer: payloads around 4096 and its multiples up to 1 MiB, buffer filled to the boundary then each kind of write, failing flushes, 10^4 writes without a flush (w, len(buf), err, backing array and sink compared after every call)")
     if ctx.violations:
         return
     for i in range(2 if quick else 6):
-        vlib.correspond_stream(ctx, h, writer_stream(ctx.rng, 1500 if quick else 8000), f"wr-{i}",
+        writer_correspond(ctx, h, writer_stream(ctx.rng, 1500 if quick else 8000), f"wr-{i}",
                                "bare reply writer: random call sequences with payload sizes steered onto the free space and the multiples of 4096, failing flushes, new writers (w, len(buf), err, backing array and sink compared after every call)")
         if ctx.violations:
             return
